@@ -7,6 +7,7 @@ package mergedlocrib
 // of (source, route) pairs currently advertised.
 
 import (
+	"crypto/sha1"
 	"fmt"
 	"sort"
 	"strings"
@@ -40,13 +41,13 @@ type zvC29Case struct {
 
 type zvC29Src struct{ id int }
 
-// Routes: 0 = r1 (prefix P1, path X), 1 = r2 (prefix P2 inside P1, path X),
-// 2 = r1' (prefix P1, path Y), 3 = r2' (prefix P2, path Y).
+// Routes: 0 = r1 (prefix P1, path X), 1 = r1' (prefix P1, path Y),
+// 2 = r2 (prefix P2 inside P1, path X), 3 = r2' (prefix P2, path Y).
 func zvC29RouteParts(f zvC29Flavour, idx int) (*bnet.Prefix, bnet.IP) {
 	var pfx *bnet.Prefix
 	var nh bnet.IP
-	second := idx == 1 || idx == 3
-	other := idx >= 2
+	second := idx >= 2
+	other := idx%2 == 1
 	if f.Fam == 4 {
 		pfx = bnet.NewPfx(bnet.IPv4FromOctets(10, 0, 0, 0), 8).Ptr()
 		if second {
@@ -79,7 +80,7 @@ func zvC29Route(f zvC29Flavour, idx int) *routeapi.Route {
 		return r
 	}
 	bgpID := uint32(1)
-	if idx >= 2 {
+	if idx%2 == 1 {
 		bgpID = 2
 	}
 	r.Paths = []*routeapi.Path{{Type: routeapi.Path_BGP, BgpPath: &routeapi.BGPPath{
@@ -112,7 +113,7 @@ func zvC29WantKey(f zvC29Flavour, idx int) string {
 	return pfx.String() + " " + f.Path + " via " + nh.String()
 }
 
-var zvC29RouteNames = []string{"r1", "r2", "r1'", "r2'"}
+var zvC29RouteNames = []string{"r1", "r1'", "r2", "r2'"}
 
 func (o zvC29Op) String() string {
 	if o.Kind == "drop" {
@@ -240,10 +241,13 @@ func zvC29Step(r *vh.Run, f zvC29Flavour, ops []zvC29Op, hist []zvC29Op, count b
 	}
 	// observation: the underlying Loc-RIB through its public dump
 	got := map[string]int{}
+	var dump []string
 	if p, what := vh.Try(func() {
 		for _, rt := range lr.Dump() {
 			for _, pa := range rt.Paths() {
-				got[zvC29Key(rt.Prefix(), pa)]++
+				k := zvC29Key(rt.Prefix(), pa)
+				got[k]++
+				dump = append(dump, k)
 			}
 		}
 	}); p {
@@ -266,7 +270,7 @@ func zvC29Step(r *vh.Run, f zvC29Flavour, ops []zvC29Op, hist []zvC29Op, count b
 		}
 		if want && count {
 			r.Count("oracle_route_advertised", 1)
-			if rt >= 2 && advertised(rt-2) {
+			if rt%2 == 1 && advertised(rt-1) {
 				bothPaths++
 			}
 		}
@@ -284,20 +288,11 @@ func zvC29Step(r *vh.Run, f zvC29Flavour, ops []zvC29Op, hist []zvC29Op, count b
 	// swaps, so a refcount-style defect shows up as a new state and is followed)
 	var sb strings.Builder
 	fmt.Fprint(&sb, model, "|")
-	var dump []string
-	for _, rt := range lr.Dump() {
-		for _, pa := range rt.Paths() {
-			dump = append(dump, zvC29Key(rt.Prefix(), pa))
-		}
-	}
 	sort.Strings(dump)
 	fmt.Fprint(&sb, dump, "|")
 	known := 0
 	for rt := 0; rt < f.NRoutes; rt++ {
-		h, err := hashRoute(zvC29Route(f, rt))
-		if err != nil {
-			r.Fatalf("hashRoute: %v", err)
-		}
+		h := zvC29Hash(r, f, rt)
 		rc, exists := m.routes[h]
 		if !exists {
 			sb.WriteString("-;")
@@ -318,6 +313,27 @@ func zvC29Step(r *vh.Run, f zvC29Flavour, ops []zvC29Op, hist []zvC29Op, count b
 	}
 	fmt.Fprintf(&sb, "other=%d", len(m.routes)-known)
 	return sb.String(), ops, ok
+}
+
+// zvC29Hash: the merged RIB's map key of route rt (only used to read the
+// private source lists for the canonical state).
+var zvC29HashCache = map[string][sha1.Size]byte{}
+
+func zvC29Hash(r *vh.Run, f zvC29Flavour, rt int) [sha1.Size]byte {
+	k := fmt.Sprint(f.Path, f.Fam, rt)
+	if h, ok := zvC29HashCache[k]; ok {
+		return h
+	}
+	h, err := hashRoute(zvC29Route(f, rt))
+	if err != nil {
+		r.Fatalf("hashRoute: %v", err)
+	}
+	h2, _ := hashRoute(zvC29Route(f, rt))
+	if h != h2 {
+		r.Fatalf("hashRoute is not a function of the route content")
+	}
+	zvC29HashCache[k] = h
+	return h
 }
 
 func zvC29Hist(h []zvC29Op) string {
@@ -346,10 +362,10 @@ func zvC29Flavours(thorough bool) []zvC29Flavour {
 		}
 		for i := 0; i < n; i++ {
 			f := fs[i]
-			if !(f.SrcKind == "pointer" && ((f.Path == "static" && f.Fam == 4) || (f.Path == "bgp" && f.Fam == 6))) {
+			if f.SrcKind != "pointer" {
 				continue
 			}
-			f.NSrc = 4
+			f.NSrc, f.NRoutes = 4, 2
 			fs = append(fs, f)
 		}
 	}
@@ -362,7 +378,7 @@ var zvC29Counters = []string{"add_repeated_by_same_source", "add_by_second_sourc
 func TestVerifC29(t *testing.T) {
 	r := vh.Start(t, "C29")
 	defer r.Finish()
-	r.Rule("per flavour (static|BGP paths x IPv4|IPv6 x pointer|string sources; 3 sources x 3 routes r1, r2, r1' = r1's prefix with another path; thorough adds 3 sources x 4 routes (r2' too) for every flavour and 4 sources x 3 routes for two flavours), " +
+	r.Rule("per flavour (static|BGP paths x IPv4|IPv6 x pointer|string sources; 3 sources x 3 routes r1, r2, r1' = r1's prefix with another path; thorough adds 3 sources x 4 routes (r2' too) for every flavour and 4 sources x 2 routes for the pointer flavours), " +
 		"BFS over all sequences of AddRoute (repeats allowed), RemoveRoute (also by non-advertisers / of absent routes), DropAllBySrc until the set of canonical states " +
 		"(model + Loc-RIB content + private per-route source lists) closes; oracle in every reached state: route in the Loc-RIB dump <=> some source advertises it; evaluations = flavours explored")
 	r.Require(zvC29Counters...)
